@@ -97,6 +97,12 @@ pub fn replay(args: &Args) {
             util::rat(&exp["r2"]),
             util::rat(&exp["total"]),
         );
+        // some cases with every chance weight scaled by 2^-1040 (subnormal weights) or 2^1000: the same probabilities
+        let t = match id % 7 {
+            3 => t.scale_weights(-1040),
+            5 => t.scale_weights(1000),
+            _ => t,
+        };
         match evaluate(&t, &prof) {
             Err(msg) => out.line(&json!({"id": id, "status": "violation",
                 "mismatch": [{"class": "failed", "what": "evaluation failed on a valid game and profile", "observed": msg}]})),
